@@ -1,5 +1,5 @@
 """C01 - generated moves are exactly the legal moves (DESIGN.md section 5, C01)."""
-from boardchecks import board_pipeline
+from boardchecks import board_pipeline, sys_model_check
 from vlib import root_indices
 
 LEVEL = "model_checking"
@@ -22,3 +22,4 @@ def run(ctx):
           [("ep-%s-%d" % (v, f), "Families_pos.cfg", {"VERIF_FAMILY": "ep", "VERIF_VARIANT": v, "VERIF_FILE": f, "VERIF_SLICE": 0, "VERIF_SLICES": 1})
            for v in "rbq" for f in range(8)]
     board_pipeline(ctx, bfs, walks, fam)
+    sys_model_check(ctx, allr, 1 if ctx.tier == "quick" else 2)
